@@ -41,13 +41,13 @@ type Program struct {
 	// Normalised lists the helper functions inlined before analysis (normalise.go).
 	Normalised []string
 	overlayIn  map[string][]byte
-	Repo    string
-	Config  BuildConfig
-	Fset    *token.FileSet
-	All     []*packages.Package          // every package, deps included
-	Mod     []*packages.Package          // packages of the galene module
-	ByPath  map[string]*packages.Package // import path -> package
-	parents map[*ast.File]map[ast.Node]ast.Node
+	Repo       string
+	Config     BuildConfig
+	Fset       *token.FileSet
+	All        []*packages.Package          // every package, deps included
+	Mod        []*packages.Package          // packages of the galene module
+	ByPath     map[string]*packages.Package // import path -> package
+	parents    map[*ast.File]map[ast.Node]ast.Node
 
 	// lazily built
 	ssaProg   *ssa.Program
@@ -193,8 +193,8 @@ func loadRaw(dir string, bc BuildConfig, overlay map[string][]byte) (*Program, e
 		Repo:      dir,
 		overlayIn: overlay,
 		Config:    bc,
-		ByPath:  map[string]*packages.Package{},
-		parents: map[*ast.File]map[ast.Node]ast.Node{},
+		ByPath:    map[string]*packages.Package{},
+		parents:   map[*ast.File]map[ast.Node]ast.Node{},
 	}
 	var errs []string
 	packages.Visit(pkgs, nil, func(pkg *packages.Package) {
